@@ -123,6 +123,13 @@ def extract(repo):
     #      or only when it is itself in the DERIVE clause (has an initializer)?
     oa = _strip_comments(rd("src/express/ordered_attrs.cc"))
     pb = re.sub(r"\s+", "", _body(oa, r"void\s+populateAttrList\s*\([^)]*\)\s*\{"))
+    # does the search for the inherited attribute also look at who created it (SELF\sup.attr: sup or a supertype of sup)?
+    if "strcasecmp(attr->name->symbol.name,list[i]->attr->name->symbol.name)&&(!sup||isSelfOrSupertype(sup,list[i]->creator))" in pb:
+        search_creator = "true"
+    elif "if(0==strcasecmp(attr->name->symbol.name,list[i]->attr->name->symbol.name)){" in pb:
+        search_creator = "false"
+    else:
+        raise ValueError("populateAttrList: the test that finds the inherited attribute is not recognised")
     if "unique=false;if(attr->initializer){list[i]->deriver=ent;}break;" in pb:
         explicit_marks = "false"
     elif "unique=false;list[i]->deriver=ent;break;" in pb:
@@ -177,6 +184,10 @@ def descCreation : DescCreation := .{creation}
 /-- ordered_attrs.cc `populateAttrList`: an own attribute that repeats an inherited name marks the inherited attribute
     "derived by this entity" always (true), or only when it is in the DERIVE clause (false) -/
 def explicitRedeclMarksDerived : Bool := {explicit_marks}
+
+/-- ordered_attrs.cc `populateAttrList`: the search for the inherited attribute a redeclaration `SELF\\sup.x` means looks at the
+    name only (false) or also requires the entry's creator to be `sup` or a supertype of `sup` (true) -/
+def redeclSearchUsesCreator : Bool := {search_creator}
 
 /-- `TypeDescriptor::NonRefTypeDescriptor`: maximal number of REFERENCE_TYPE links the loop follows (`none` = no bound) -/
 def nonRefLinkBound : Option Nat := {link_bound}
